@@ -78,6 +78,30 @@ def jdump(o):
 # worker side
 
 
+def classify_exception(e, rr):
+    """An exception that escaped run_case: if the innermost frame that belongs to either toasty or /verif is a
+    toasty frame, the real code raised on an input the check considers legitimate -> violation (keyed by exception
+    type and function, so that it can be listed as a known finding); otherwise it is a harness error -> inconclusive."""
+    import traceback
+
+    tb = traceback.extract_tb(e.__traceback__)
+    troot = os.path.realpath(os.path.join(rr, "toasty")) + os.sep
+    vroot = os.path.realpath(VERIF) + os.sep
+    who = None
+    for fr in reversed(tb):
+        fn = os.path.realpath(fr.filename)
+        if fn.startswith(troot):
+            who = ("toasty", os.path.basename(fn), fr.name, fr.lineno)
+            break
+        if fn.startswith(vroot):
+            who = ("verif", os.path.basename(fn), fr.name, fr.lineno)
+            break
+    text = "%r\n%s" % (e, "".join(traceback.format_exception(type(e), e, e.__traceback__))[-1800:])
+    if who and who[0] == "toasty":
+        return dict(status="violation", key="toasty-exception:%s:%s.%s" % (type(e).__name__, who[1], who[2]), detail=text)
+    return dict(status="inconclusive", detail="harness error: " + text)
+
+
 def worker_main(cid, workdir):
     """Read case specs (one JSON per line) on stdin, write results on the original stdout."""
     res_fd = os.dup(1)
@@ -108,10 +132,8 @@ def worker_main(cid, workdir):
                 res = dict(status="inconclusive", detail="toasty imported from %s, expected %s" % (troot, rr))
             else:
                 res = mod.run_case(spec, cdir)
-        except BaseException as e:  # harness error: never a verdict about toasty
-            import traceback
-
-            res = dict(status="inconclusive", detail="harness error: %r\n%s" % (e, traceback.format_exc()[-1500:]))
+        except BaseException as e:
+            res = classify_exception(e, rr)
         res.setdefault("status", "held")
         res["wall"] = round(time.time() - t0, 3)
         res["_cdir"] = cdir
@@ -299,7 +321,10 @@ def drive(mod, cid, tier, seed, a, workdir, t0):
     nheld = 0
     for spec, r in zip(specs, results):
         for k, v in (r.get("counters") or {}).items():
-            counters[k] = counters.get(k, 0) + v
+            if k.startswith("max_"):
+                counters[k] = max(counters.get(k, 0), v)
+            else:
+                counters[k] = counters.get(k, 0) + v
         for k, v in (r.get("sets") or {}).items():
             sets.setdefault(k, set()).update(json.dumps(x, sort_keys=True, default=str) for x in v)
         st = r["status"]
@@ -328,7 +353,7 @@ def drive(mod, cid, tier, seed, a, workdir, t0):
     # replay directories for violations
     replays = []
     if not replay_mode:
-        rdir = os.path.join(VERIF, "replays", cid)
+        rdir = os.path.join(os.environ.get("VERIF_REPLAY_DIR") or os.path.join(VERIF, "replays"), cid)
         for spec, r in violations[:10]:
             d = os.path.join(rdir, stable_hash(spec))
             shutil.rmtree(d, ignore_errors=True)
@@ -395,11 +420,12 @@ def drive(mod, cid, tier, seed, a, workdir, t0):
         verdict="violation" if violations else ("inconclusive" if inconclusive_reason else "held"),
     )
     if not replay_mode:
-        os.makedirs(os.path.join(VERIF, "evidence"), exist_ok=True)
-        tmp = os.path.join(VERIF, "evidence", cid + ".json.tmp")
+        edir = os.environ.get("VERIF_EVIDENCE_DIR") or os.path.join(VERIF, "evidence")
+        os.makedirs(edir, exist_ok=True)
+        tmp = os.path.join(edir, cid + ".json.tmp")
         with open(tmp, "w") as f:
             json.dump(ev, f, indent=1, default=jdefault)
-        os.replace(tmp, os.path.join(VERIF, "evidence", cid + ".json"))
+        os.replace(tmp, os.path.join(edir, cid + ".json"))
 
     for key, hits in known_hits.items():
         print("KNOWN-FINDING: property=%s %s (%d case(s) this run; %s)" % (cid, key, len(hits), known_keys[key].get("what", "")))
